@@ -24,10 +24,17 @@ class S_:
 
 
 class Family:
-    def __init__(self, style, supertypes=False, tagger=False, mixin=True):
-        self.style, self.supertypes, self.tagger, self.mixin = style, supertypes, tagger, mixin
+    def __init__(self, style, supertypes=False, tagger=False, mixin=True, fmt=None):
+        self.style, self.supertypes, self.tagger, self.mixin, self.fmt = style, supertypes, tagger, mixin, fmt
         self.classes = {}
         bases = (DataClassDictMixin,) if mixin else ()
+        if fmt == "json":
+            from mashumaro.mixins.orjson import DataClassORJSONMixin
+            bases = (DataClassORJSONMixin,)
+        elif fmt == "msgpack":
+            from mashumaro.mixins.msgpack import DataClassMessagePackMixin
+            bases = (DataClassMessagePackMixin,)
+        self.bases = bases
         fn = (lambda cls: cls.__name__.lower()) if tagger else None
         self.disc = Discriminator(field="type", include_subtypes=True, include_supertypes=supertypes, variant_tagger_fn=fn)
         ns = {"type": "base", "__qualname__": "Base", "__module__": __name__}
@@ -41,7 +48,7 @@ class Family:
         if style == "annotated":
             ann = typing.Annotated[self.classes["Base"], self.disc]
             globals()["Holder"] = None
-            self.holder = dataclasses.make_dataclass("Holder", [("v", ann)], bases=(DataClassDictMixin,), module=__name__,
+            self.holder = dataclasses.make_dataclass("Holder", [("v", ann)], bases=(self.bases or (DataClassDictMixin,)), module=__name__,
                                                      namespace={"__qualname__": "Holder", "__module__": __name__})
             globals()["Holder"] = self.holder
 
@@ -58,6 +65,13 @@ class Family:
         self.decoder = BasicDecoder(typing.Annotated[self.classes["Base"], self.disc])
 
     def decode(self, d):
+        if self.fmt:
+            meth = {"json": "from_json", "msgpack": "from_msgpack"}[self.fmt]
+            ident = lambda x: x
+            if self.style == "config":
+                return getattr(self.classes["Base"], meth)(d, decoder=ident)
+            if self.style == "annotated":
+                return getattr(self.holder, meth)({"v": d}, decoder=ident).v
         if self.style == "config":
             return self.classes["Base"].from_dict(d)
         if self.style == "annotated":
@@ -85,7 +99,7 @@ class Family:
 
 
 def observe(fam, tag, x):
-    d = {"x": x}
+    d = {"x": x, "ya": x + 1, "yb": x + 2, "yc": x + 3}
     if tag is not None:
         d["type"] = tag
     st, r = call(fam.decode, d)
@@ -99,6 +113,9 @@ def observe(fam, tag, x):
             return "wrong-class:%s-for-%s" % (type(r).__name__, want[1].__name__)
         if r.x != x:
             return "payload"
+        own = "y" + type(r).__name__.lower()
+        if hasattr(r, own) and getattr(r, own) != x + {"ya": 1, "yb": 2, "yc": 3}[own]:
+            return "variant-parsed-with-another-class-fields:%s" % type(r).__name__
         return None
     if st == "ok":
         return "accepted-%s" % want[0]
@@ -142,10 +159,10 @@ def make_input_plan(T, variant, k=3, **kw):
     return ctx, HistInput(ctx, k)
 
 
-def setup(T, NODE, CTX, variant, k=3, style="config", supertypes=False, tagger=False, mixin=True):
+def setup(T, NODE, CTX, variant, k=3, style="config", supertypes=False, tagger=False, mixin=True, fmt=None):
     S = S_()
     S.node, S.ctx, S.variant = NODE, CTX, variant
-    S.fam_args = dict(style=style, supertypes=supertypes, tagger=tagger, mixin=mixin)
+    S.fam_args = dict(style=style, supertypes=supertypes, tagger=tagger, mixin=mixin, fmt=fmt)
     return S
 
 
